@@ -75,9 +75,10 @@ func Rule(e Era, name string) (common.UtxoValidationRuleFunc, bool) {
 	return nil, false
 }
 
-// Verify runs common.VerifyTransaction with the era's full rule list.
+// Verify runs common.VerifyTransaction with the era's full rule list (under
+// the history checks of Checked when EnableChecks is on).
 func Verify(e Era, tx common.Transaction, slot uint64, ls common.LedgerState, pp common.ProtocolParameters) error {
-	return common.VerifyTransaction(tx, slot, ls, pp, Rules(e))
+	return Checked(e, tx, ls, func() error { return common.VerifyTransaction(tx, slot, ls, pp, Rules(e)) })
 }
 
 // RuleResult is the outcome of one rule.
